@@ -69,6 +69,10 @@ def welford_rolling(F, R):
     R.ob('WR-count', 'WelfordRolling', ok_n, 'sample counter is incremented by one per delivered value' if ok_n else 'no counter with n := n + 1', v.file)
     if not ok_n or V is None:
         return
+    wide = ft.get(n, {}).get('prim') in ('usize', 'u64', 'u128')
+    R.ob('WR-count-width', 'WelfordRolling', wide,
+         'the sample counter is a %s: it cannot wrap within 2^64 updates' % ft.get(n, {}).get('prim') if wide else
+         'the sample counter is a %s: after 2^bits values it overflows (panic in debug, wrap to 0 in release and the mean divides by zero), so the statistics do not hold for streams of any length' % ft.get(n, {}).get('prim'), v.file)
     n1 = op('iadd', ('in', n), lit(1, 'i'))
     mean = s = None
     for c in floats:
